@@ -91,6 +91,7 @@ struct C05 : Check {
 	static std::string pattern(Rng &r)
 	{
 		static const char *p[] = {"a", "foo", "^", "$", ".", "x*", "\\<b", "r\\>", "[a-f]+", "[^ ]*", "(a|b)+", "(x)(y)?", "a{2,3}", "[[:alpha:]]+", "\\(", "[", "(", "a{", "*", "\\", "", "[]", "[^]", "()", "a||b", "^$", ".*x.*y", "(((((a)))))", "a{1,200}", "[z-a]"};
+		if (r.chance(1, 30)) { static const char *an[] = {"\\>", "\\<", "\\<\\>", "^\\>", "\\>$", "\\<$"}; return an[r.below(6)]; }	// anchors only
 		int k = (int) r.below(36);
 		// bounds in every shape, also reversed, missing, huge and unterminated
 		if (k == 34) { static const char *b[] = {"x{9,1}", "(ab){12,2}", "a{,3}", "a{3,}", "a{0}", "a{0,0}b", "a{99999999999}", "a{1,99999999999}", "a{,}", "a{2", "a{2,", "(a|b){7,3}c", ".{200,1}", "[a-z]{30,2}$"}; return b[r.below(14)]; }
